@@ -33,6 +33,7 @@ type tracer struct {
 	freeV    map[int]bool   // open view slots
 	maxViews int
 	failed   bool
+	lastW    int // database writes performed by the last uninterrupted commit
 }
 
 func (t *tracer) hid(h []byte) int {
@@ -149,6 +150,7 @@ func (t *tracer) commit(limit int) {
 	var res commitResult
 	cev := map[string]interface{}{}
 	try(cev, func() { res = w.n.commit(limit) })
+	t.lastW = len(res.writes)
 	if f, bad := cev["fail"]; bad {
 		t.emit(map[string]interface{}{"op": "Flush", "ver": ver, "fail": f})
 		return
@@ -422,6 +424,7 @@ func (t *tracer) histIter(r int, s string, lo, hi int, asc bool) {
 			hib = w.key(hi)
 		}
 		got := []int{}
+		touch(st, w.keys)
 		if asc {
 			it, _ := st.Iterator(lob, hib)
 			for ; it.Valid(); it.Next() {
@@ -486,6 +489,19 @@ func (t *tracer) randomRead() {
 		hi = t.nk + 1
 	}
 	t.histIter(r, s, lo, hi, t.rng.Intn(2) == 0)
+}
+
+// auditViews reads every open historical view completely (every substore, by range and by key).
+func (t *tracer) auditViews() {
+	for _, r := range t.openSlots() {
+		for _, s := range t.w.names {
+			if t.failed {
+				return
+			}
+			t.histIter(r, s, 0, t.nk+1, t.rng.Intn(2) == 0)
+		}
+		t.histGet(r, t.w.names[t.rng.Intn(len(t.w.names))], 1+t.rng.Intn(t.nk))
+	}
 }
 
 func (t *tracer) begin(v variant, names []string, scratch string, salt int64) {
@@ -586,6 +602,8 @@ func (t *tracer) runRandom(maxBlocks int) {
 				t.commit(-1)
 				if t.rng.Intn(10) == 0 {
 					t.stop("Crash") // after the last write of the commit
+				} else if t.rng.Intn(10) < 7 {
+					t.auditViews() // every open view read completely after the newer version was saved
 				}
 			}
 		case r < 67:
@@ -594,20 +612,20 @@ func (t *tracer) runRandom(maxBlocks int) {
 			}
 		case r < 69:
 			t.stop("Crash")
-		case r < 72:
+		case r < 71:
 			if latest >= 2 && len(t.blk) == 0 {
 				t.rollback(1 + t.rng.Intn(latest-1))
 				forkAllowed = true
 			}
-		case r < 80:
+		case r < 82:
 			if latest >= 1 {
-				if t.rng.Intn(5) == 0 {
+				if t.rng.Intn(6) == 0 {
 					t.lazyTry(latest + 1 + t.rng.Intn(2))
 				} else {
 					t.lazyTry(1 + t.rng.Intn(latest))
 				}
 			}
-		case r < 97:
+		case r < 98:
 			t.randomRead()
 		default:
 			if sl := t.openSlots(); len(sl) > 0 {
@@ -633,10 +651,11 @@ func (t *tracer) runRandom(maxBlocks int) {
 }
 
 // ---------------------------------------------------------------------------------------
-// crash sweep: one seeded history of B blocks; for EVERY block b and EVERY boundary i in
-// 0..K (K = number of persistent substores + 1 database writes per commit; i = 0 before
-// the first write, i = K after the last one) one run: blocks 1..b-1 committed normally, the
-// commit of block b stopped after i writes, reopen, re-execute, commit, blocks b+1..B.
+// crash sweep: one seeded history of B blocks; the history is first run uninterrupted to
+// MEASURE the number K_b of database writes of each block's commit (K_b = persistent
+// substores + 1 on the pinned tree); then for EVERY block b and EVERY boundary i in 0..K_b
+// (i = 0 before the first write, i = K_b after the last one) one run: blocks 1..b-1 committed
+// normally, the commit of block b stopped after i writes, reopen, re-execute, commit, b+1..B.
 
 func genHistory(rng *rand.Rand, names []string, nk, blocks int) [][]write {
 	var h [][]write
@@ -668,8 +687,20 @@ func (t *tracer) runBlock(b []write, limit int) {
 	t.commit(limit)
 }
 
-func (t *tracer) runSweepCase(hist [][]write, b, i int) {
-	K := len(t.w.names) + 1
+// countWrites: the history once without interruption; returns the number of database writes
+// each block's commit performed (the write boundaries the sweep enumerates).
+func (t *tracer) countWrites(hist [][]write) []int {
+	var counts []int
+	for j := 0; j < len(hist) && !t.failed; j++ {
+		t.runBlock(hist[j], -1)
+		counts = append(counts, t.lastW)
+	}
+	t.finalAudit()
+	return counts
+}
+
+// runSweepCase: the commit of block b stops after i of its K database writes (i = K: after the last one).
+func (t *tracer) runSweepCase(hist [][]write, b, i, K int) {
 	for j := 0; j < len(hist) && !t.failed; j++ {
 		if j != b {
 			t.runBlock(hist[j], -1)
@@ -679,6 +710,9 @@ func (t *tracer) runSweepCase(hist [][]write, b, i int) {
 			t.runBlock(hist[j], i)
 		} else {
 			t.runBlock(hist[j], -1)
+			t.stop("Crash")
+		}
+		if t.w.n.up() { // fewer writes than measured: the commit completed
 			t.stop("Crash")
 		}
 		t.reopen(true)
@@ -744,13 +778,15 @@ func trace(out string, n int, mode string, names []string, nk, ntk, blocks int, 
 			t.end()
 		}
 	case "sweep":
-		K := len(names) + 1
 		for h := 0; h < n; h++ {
 			hist := genHistory(hx.Rng(int64(1000+h)), names, nk, blocks)
-			for b := 0; b < len(hist); b++ {
-				for i := 0; i <= K; i++ {
+			t.begin(parseVariant(variants[h%len(variants)]), names, scratch, int64(h*100000+99999))
+			counts := t.countWrites(hist)
+			t.end()
+			for b := 0; b < len(counts); b++ {
+				for i := 0; i <= counts[b]; i++ {
 					t.begin(parseVariant(variants[(h+cases)%len(variants)]), names, scratch, int64(h*100000+b*100+i))
-					t.runSweepCase(hist, b, i)
+					t.runSweepCase(hist, b, i, counts[b])
 					t.end()
 					cases++
 				}
